@@ -16,10 +16,14 @@ channel.rs  sign_mutual_close_tx_phase2 / sign_mutual_close_tx         `signClos
 Inputs that come from outside the modelled code, per transaction output (with the wallet path
 supplied for that output): `canSpend` = `wallet.can_spend(path, script)`, `allowlisted` =
 `wallet.allowlist_contains(script, path)`; scripts are opaque ids plus their byte length (the
-length enters the weight).  `canon` = "the transaction handed to phase 1 is byte-identical to the
-canonical closing transaction on the funding outpoint with the same non-zero outputs" (what LDK's
-`ClosingTransaction::new(..).built_transaction()` rebuilds; it does not depend on which output is
-taken as the holder's).  LDK's builder and the signature are validated by the harness only.
+length enters the weight) and the rank of their bytes in lexicographic order (only comparisons matter; it
+decides the output order).  The closing transaction itself is modelled structurally (`ClosingTx`):
+`canonClose` is what LDK's `ClosingTransaction::new(..).built_transaction()` builds (version 2, lock time
+0, one input spending the funding outpoint with sequence 0xffffffff, the non-zero outputs sorted by value
+then script bytes); phase 1 compares the supplied transaction (`SuppliedTx`) with the recomposed one and
+signs the recomposed one, phase 2 builds and signs it from the values.  That LDK's builder produces these
+bytes and the ECDSA signature are validated by the harness (signature verified against a transaction built
+from scratch, whose structured rendering is compared with `canonClose` on every accepted request).
 -/
 namespace VlsModel.MutualClose
 open VlsModel VlsModel.Policy
@@ -29,6 +33,7 @@ structure Out where
   value : Nat       -- u64
   sid : Nat         -- script identity
   len : Nat         -- script length in bytes
+  rank : Nat        -- position of the script's bytes in lexicographic order (0 = the empty script)
   canSpend : Bool
   allowlisted : Bool
 deriving DecidableEq, Repr
@@ -40,6 +45,60 @@ structure Args where
   holderScript : Option Out
   cpScript : Option Out
 deriving DecidableEq, Repr
+
+/-- one output of a transaction: value and script (identity + byte-order rank) -/
+structure TxO where
+  value : Nat
+  sid : Nat
+  rank : Nat
+deriving DecidableEq, Repr
+
+/-- a one-input transaction, structurally -/
+structure ClosingTx where
+  version : Nat
+  locktime : Nat
+  sequence : Nat
+  /-- the outpoint the single input spends (opaque id) -/
+  outpoint : Nat
+  outputs : List TxO
+deriving DecidableEq, Repr
+
+/-- LDK `transaction_utils::sort_outputs`: by value, then script bytes -/
+def txoLe (x y : TxO) : Bool := decide (x.value < y.value) || (x.value == y.value && decide (x.rank ≤ y.rank))
+
+def insertO (x : TxO) : List TxO → List TxO
+  | [] => [x]
+  | y :: ys => if txoLe x y then x :: y :: ys else y :: insertO x ys
+
+def sortO (l : List TxO) : List TxO := l.foldr insertO []
+
+/-- the script of an absent output argument is the empty script (`ScriptBuf::new()`) -/
+def txoOf (value : Nat) (o : Option Out) : TxO :=
+  match o with
+  | some x => ⟨value, x.sid, x.rank⟩
+  | none => ⟨value, 0, 0⟩
+
+/-- `build_closing_transaction`: counterparty output then holder output, zero values dropped, sorted -/
+def canonOutputs (a : Args) : List TxO :=
+  sortO ((if a.toCounterparty > 0 then [txoOf a.toCounterparty a.cpScript] else [])
+      ++ (if a.toHolder > 0 then [txoOf a.toHolder a.holderScript] else []))
+
+/-- `ClosingTransaction::new(to_holder, to_cp, holder_script, cp_script, funding_outpoint).built_transaction()` -/
+def canonClose (fundingOutpoint : Nat) (a : Args) : ClosingTx :=
+  ⟨2, 0, 4294967295, fundingOutpoint, canonOutputs a⟩
+
+/-- the transaction handed to phase 1, as supplied by the caller (outputs with the wallet facts for
+    their paths) -/
+structure SuppliedTx where
+  version : Nat
+  locktime : Nat
+  sequence : Nat
+  outpoint : Nat
+  outs : List Out
+deriving Repr
+
+def SuppliedTx.render (t : SuppliedTx) : ClosingTx :=
+  ⟨t.version, t.locktime, t.sequence, t.outpoint, t.outs.map (fun o => ⟨o.value, o.sid, o.rank⟩)⟩
 
 def varintLen (n : Nat) : Nat := if n < 253 then 1 else if n ≤ 65535 then 3 else 5
 
@@ -142,25 +201,29 @@ def chooseAssignment (p : Policy) (s : Setup) (e : EState) (outs : List Out) : E
       | .error _ => .error k
 
 /-- `decode_and_validate_mutual_close_tx`: the assignment that is signed -/
-def decodeAndValidate (p : Policy) (s : Setup) (e : EState) (outs : List Out) (canon : Bool) :
+def decodeAndValidate (p : Policy) (s : Setup) (e : EState) (fo : Nat) (tx : SuppliedTx) :
     Except Kind Args := do
-  hard .format (decide (outs.length > 2))
+  hard .format (decide (tx.outs.length > 2))
   whenE e.curHolderInfo.isNone (policyErr p .mutualOther)
   whenE e.curCpInfo.isNone (policyErr p .mutualOther)
-  let good ← chooseAssignment p s e outs
-  check p .onchainFormatStandard (!canon)
+  let good ← chooseAssignment p s e tx.outs
+  -- `if *recomposed_tx != *tx { policy_err!(.., "recomposed tx mismatch") }`
+  check p .onchainFormatStandard (decide (tx.render ≠ canonClose fo good))
   pure good
 
-/-- `Channel::sign_mutual_close_tx_phase2` -/
-def signClose2 (p : Policy) (s : Setup) (e : EState) (a : Args) : Except Kind EState := do
+/-- `Channel::sign_mutual_close_tx_phase2`: new state and the transaction that is signed
+    (`ClosingTransaction::new` of the validated values on the channel's funding outpoint `fo`) -/
+def signClose2 (p : Policy) (s : Setup) (e : EState) (fo : Nat) (a : Args) : Except Kind (EState × ClosingTx) := do
   validateMutualClose p s e a
-  pure { e with closed := true }
+  pure ({ e with closed := true }, canonClose fo a)
 
-/-- `Channel::sign_mutual_close_tx` (phase 1); `npaths` = number of wallet paths supplied -/
-def signClose1 (p : Policy) (s : Setup) (e : EState) (outs : List Out) (npaths : Nat) (canon : Bool) :
-    Except Kind (EState × Args) := do
-  hard .other (decide (npaths ≠ outs.length))
-  let a ← decodeAndValidate p s e outs canon
-  pure ({ e with closed := true }, a)
+/-- `Channel::sign_mutual_close_tx` (phase 1); `npaths` = number of wallet paths supplied;
+    returns the new state, the reading that was validated and the transaction that is signed -/
+def signClose1 (p : Policy) (s : Setup) (e : EState) (fo : Nat) (tx : SuppliedTx) (npaths : Nat) :
+    Except Kind (EState × Args × ClosingTx) := do
+  hard .other (decide (npaths ≠ tx.outs.length))
+  let a ← decodeAndValidate p s e fo tx
+  -- the *recomposed* transaction is what gets signed, not the caller's
+  pure ({ e with closed := true }, a, canonClose fo a)
 
 end VlsModel.MutualClose
